@@ -197,6 +197,12 @@ def build_scenario(rng, world, nconn, nsess, tag, pool="10.250.0.0/22", pause=60
         # phase 0: association, first sessions, modifications in between
         g.setup(c)
         g.events[-1]["sess"] = -1
+        if world == "node":
+            # the associations are set up one after the other, before any session traffic: while the node creates the socket
+            # of a new peer (bind, then connect) that socket takes datagrams of OTHER peers (finding F1103, scenario
+            # node_setup_storm); the streams of this scenario start when every peer has its connection
+            phases.append(len(g.events))
+            views.append(g.view())
         for _ in range(nsess):
             g.est()
             if g.sessions and g.rng.random() < 0.5:
@@ -228,7 +234,9 @@ def build_scenario(rng, world, nconn, nsess, tag, pool="10.250.0.0/22", pause=60
            "reports": reports and world != "node", "watchdog_s": 300,
            "ddn": ([l1.ip(10, 60, 0, 1), l1.ip(10, 61, 0, 1)] if world == "up4" else []),
            "sizes": {}}
-    return {"tag": tag, "world": world, "input": inp, "meta": meta}
+    if world == "node":
+        inp["serial_phases"] = [0]
+    return {"tag": tag, "world": world, "input": inp, "meta": meta, "final_empty": True}
 
 
 def reconnect_scenario(rng, nconn, nsess, tag):
@@ -600,6 +608,15 @@ def monitor(sc, res, table):
         m = re.search(r"^panic: ([^\n]*)\n(.*)", text, re.M | re.S)
         fr = [f for f in frames(m.group(2)) if not f[1].startswith("zz_verif")]
         out.append(("panic:" + (f"{fr[0][1]}:{fr[0][0]}" if fr else "?"), "the agent process panicked: " + m.group(0)[:3000]))
+    if sc.get("judge") == "storm":
+        st = (o or {}).get("storm")
+        if o is None and not out:
+            out.append(("no-observation", f"scenario process ended with status {res['rc']} without an observation: " + text[-2500:]))
+        elif st and (st.get("foreign_answers") or st.get("unanswered") or st.get("duplicates")):
+            out.append(("setup-storm:answer-to-wrong-peer",
+                        f"{st['peers']} new peers sent their Association Setup Request at about the same time: {st['unanswered']} got no answer, "
+                        f"{st['foreign_answers']} answers (other sequence number) went to a peer that had not asked, the node holds {st['node_conns']} connections"))
+        return out
     if sc.get("judge") == "races":
         # the datapath connection is cut on purpose: requests in flight fail, only memory safety is judged
         if o is None and not out:
@@ -620,7 +637,7 @@ def monitor(sc, res, table):
         out.append(("exit-status", f"scenario process exit status {res['rc']}: " + text[-2500:]))
     byid = {c["id"]: c["obs"] for c in o.get("conns", [])}
     case = {"cfg": sc["input"]["cfg"]}
-    all_views = [dict() for _ in range(3)]
+    all_views = [dict() for _ in range(8)]
     for m in sc["meta"]:
         ob = byid.get(m["id"], [])
         intents = copy.deepcopy(m["intents"])
@@ -763,6 +780,17 @@ def coq_cases(sc, o):
 
 # ------------------------------------------------------------------------------------------------ the check
 
+def storm_scenario(npeers, tag):
+    """node world: npeers NEW peers send their Association Setup Request at about the same time, each from its own socket
+    with its own sequence number (F1103)"""
+    cfg = l1.default_cfg()
+    cfg["n4addr"] = "127.0.0.1"
+    msgs = [P.message(P.AS_REQ, i + 1, [P.node_id_v4(l1.ip(10, 77, i >> 8, i & 255)), P.recovery_ts(2000)]).hex() for i in range(npeers)]
+    inp = {"world": "node", "cfg": cfg, "seed": 1, "max_pause_us": 0, "conns": [], "reports": False, "watchdog_s": 120, "ddn": [], "sizes": {},
+           "storm": msgs}
+    return {"tag": tag, "world": "node", "input": inp, "meta": [], "judge": "storm"}
+
+
 def handoff_scenarios(hseed):
     scs = []
     for kind in HANDOFF_KINDS:
@@ -830,6 +858,7 @@ def scenarios_for(rng, tier):
         scs.append(build_scenario(rng, "up4", 2, 6, "up4_b", pause=50))
         scs.append(build_scenario(rng, "bess", n(3, 5), 3, "bess_small_pool", pool="10.250.0.0/26", pause=0))
         scs.append(reconnect_scenario(rng, 6, 6, "up4_reconnect"))
+        scs.append(storm_scenario(300, "node_setup_storm"))
     else:
         for i in range(40):
             scs.append(build_scenario(rng, "bess", n(2, 8), n(3, 8), f"bess_{i}", pause=rng.choice([0, 100, 600, 2000]),
@@ -840,6 +869,8 @@ def scenarios_for(rng, tier):
             scs.append(build_scenario(rng, "up4", n(2, 8), n(3, 8), f"up4_{i}", pause=rng.choice([0, 100, 600])))
         for i in range(6):
             scs.append(reconnect_scenario(rng, n(3, 8), n(4, 8), f"up4_reconnect_{i}"))
+        for i in range(3):
+            scs.append(storm_scenario(300, f"node_setup_storm_{i}"))
     return scs
 
 
@@ -916,6 +947,25 @@ def run(tier, seed, replay=None):
         for t in ths[k:k + par]:
             t.join()
     judge_handoffs(scs, results)
+    # a failure that is neither a race report / abort / hand-off outcome is confirmed by running the scenario again, alone
+    # (nothing else of this check runs at that time), up to twice: it is reported only if the same failure shows again
+    hard = ("race:", "fatal:", "handoff:", "reconnect:", "setup-storm:", "lockset:")
+    unconfirmed = []
+    for i, (sc, res) in enumerate(zip(scs, results)):
+        soft = [f for f in res["fails"] if not f[0].startswith(hard)]
+        if not soft or replay:
+            continue
+        again = set()
+        for _ in range(2):
+            r2 = run_scenario(binary, sc)
+            again |= {f[0] for f in monitor(sc, r2, table)}
+            if {f[0] for f in soft} <= again:
+                break
+        dropped = [f for f in soft if f[0] not in again]
+        for f in dropped:
+            unconfirmed.append({"scenario": sc["tag"], "signature": f[0], "what": f[1][:300]})
+        res["fails"] = [f for f in res["fails"] if f not in dropped]
+    ck.notes["unconfirmed_failures"] = {"count": len(unconfirmed), "list": unconfirmed[:10]}
     ck.notes["handoff"] = {sc["tag"]: {"overlap_reached": res.get("overlap")} for sc, res in zip(scs, results)
                            if sc.get("handoff") and sc["handoff"][1] == "hold"}
     if table is not None:
